@@ -73,6 +73,12 @@ type runOpts struct {
 // finishRun filters obligations by property, handles failures (known findings, replay), writes evidence, returns exit code.
 func finishRun(e *Engine, results []*FnResult, ro runOpts) int {
 	known := loadKnownFindings(filepath.Join(ro.verifDir, "KNOWN_FINDINGS.txt"))
+	e.knownObl = map[string]bool{}
+	for _, k := range known {
+		if k.Property == ro.prop {
+			e.knownObl[k.Obligation] = true
+		}
+	}
 	exit := 0
 	machinery := []string{}
 	var fns []fnEvidence
